@@ -354,3 +354,128 @@ Proof.
   cbn [fst] in H. unfold wv in H. injection H as E1 E2 E3 E4 E5 E6 E7 E8 E9.
   destruct d; destruct t; unfold wv; cbn; rewrite ?E1, ?E2, ?E3, ?E4, ?E5, ?E6, ?E7, ?E8, ?E9; reflexivity.
 Qed.
+
+(* ---- the connect tasks ---- *)
+Lemma JK_start_running c : Inv c -> running_s (pc (t_start c)) = true -> cs c = Init \/ cs c = Closed.
+Proof. intros (_ & (J1 & _) & _) H. cbn in J1. destruct (pc (t_start c)); try discriminate; exact J1. Qed.
+Lemma JK_finish_running c : Inv c -> running_f (pc (t_finish c)) = true -> cs c = SockOpen \/ cs c = HsDone \/ cs c = Closed.
+Proof. intros (_ & (_ & J2) & _) H. cbn in J2. destruct (pc (t_finish c)); try discriminate; tauto. Qed.
+
+Lemma PK_not_connected c : PK c -> cs c <> Connected -> ping_timer c = None /\ pong_timer c = None.
+Proof.
+  intros P Hd. unfold PK in P. split; [destruct (ping_timer c) eqn:Q|destruct (pong_timer c) eqn:Q]; try reflexivity;
+    exfalso; apply Hd; apply P; [left|right]; congruence.
+Qed.
+
+Lemma cleanup_cs c : cs (fst (cleanup c)) = Closed.
+Proof. change (k_cs (core_of (fst (cleanup c))) = Closed). rewrite core_cleanup. apply closeK_cs. Qed.
+
+Lemma WI_closed c : Inv c -> cs c = Closed -> WI c.
+Proof.
+  intros I Hc. split; [exact I|]. split; [|split].
+  - right. right. right. exact Hc.
+  - intro H. destruct (Inv_closed_timers c I Hc) as [Q1 Q2]. destruct H; contradiction.
+  - intro H. congruence.
+Qed.
+
+Lemma start_fail_obs c e : exists e', In (OTaskDone TStart (TRaise e')) (snd (start_fail c e)).
+Proof.
+  unfold start_fail. destruct (interrupt_exit c TStart e) as [c0 e1].
+  match goal with |- context [cleanup ?x] => destruct (cleanup x) as [c2 o2] end. cbn [snd finish_task].
+  eexists. apply in_or_app. right. left. reflexivity.
+Qed.
+Lemma finish_fail_obs c e : exists e', In (OTaskDone TFinish (TRaise e')) (snd (finish_fail c e)).
+Proof.
+  unfold finish_fail. destruct (interrupt_exit c TFinish e) as [c0 e1].
+  match goal with |- context [cleanup ?x] => destruct (cleanup x) as [c2 o2] end. cbn [snd finish_task].
+  eexists. apply in_or_app. right. left. reflexivity.
+Qed.
+
+Lemma start_fail_cs c e : cs (fst (start_fail c e)) = Closed.
+Proof.
+  unfold start_fail. destruct (interrupt_exit c TStart e) as [c0 e1].
+  match goal with |- context [cleanup ?x] => pose proof (cleanup_cs x) as H; destruct (cleanup x) as [c2 o2] end.
+  cbn [fst] in *. unfold set_start_future. destruct (start_fut c2); exact H.
+Qed.
+Lemma finish_fail_cs c e : cs (fst (finish_fail c e)) = Closed.
+Proof.
+  unfold finish_fail. destruct (interrupt_exit c TFinish e) as [c0 e1].
+  match goal with |- context [cleanup ?x] => pose proof (cleanup_cs x) as H; destruct (cleanup x) as [c2 o2] end.
+  cbn [fst] in *. unfold set_finish_future. destruct (finish_fut c2); exact H.
+Qed.
+
+Lemma leaf_start_fail c x e c' o : start_fail x e = (c', o) -> Inv c' -> WI c' /\ NC c c' o.
+Proof.
+  intros E I'. pose proof (start_fail_cs x e) as Hc. pose proof (start_fail_obs x e) as Ho. rewrite E in Hc, Ho. cbn [fst snd] in *.
+  split; [apply WI_closed; assumption|]. apply NC_clr. right. left. exact Ho.
+Qed.
+Lemma leaf_finish_fail c x e c' o : finish_fail x e = (c', o) -> Inv c' -> WI c' /\ NC c c' o.
+Proof.
+  intros E I'. pose proof (finish_fail_cs x e) as Hc. pose proof (finish_fail_obs x e) as Ho. rewrite E in Hc, Ho. cbn [fst snd] in *.
+  split; [apply WI_closed; assumption|]. apply NC_clr. right. right. left. exact Ho.
+Qed.
+
+Lemma surjective_pairing_eq {A B} (p : A * B) a b : (a, b) = p -> p = (a, b).
+Proof. intro H. symmetry. exact H. Qed.
+
+Lemma wv_eqv x c : wv x = wv c -> eqv c x.
+Proof. unfold wv, eqv. intro E. injection E as E1 E2 E3 E4 E5 E6 E7 E8 E9. auto. Qed.
+
+Lemma leaf_tcp c x g c' : WI c -> wv x = wv c -> Inv c' -> c' = start_tcp_attempt x g -> WI c' /\ NC c c' [].
+Proof.
+  intros W E I' ->. pose proof (wv_eqv x c E) as (E1 & E2 & E3 & E4 & E5). split.
+  - apply (frame_WI c); [exact W|exact I'|]. unfold eqv, start_tcp_attempt. cbn. auto.
+  - apply NC_same; [unfold start_tcp_attempt; cbn; exact E1|]. intros _. unfold SF, start_tcp_attempt. cbn. reflexivity.
+Qed.
+
+Lemma leaf_start_success c x c' o : WI c -> running_s (pc (t_start c)) = true -> wv x = wv c ->
+  start_success x = (c', o) -> Inv c' -> WI c' /\ NC c c' o.
+Proof.
+  intros W Hr E Es I'. destruct W as (I & T & P & G).
+  pose proof (wv_eqv x c E) as (E1 & E2 & E3 & E4 & E5).
+  unfold start_success in Es.
+  set (c1 := x <| socket := true |> <| sock_obj := false |> <| intr_start := IExited |> <| conn_timer := None |>) in *.
+  assert (Ec2 : cs (set_start_future c1) = cs x) by (unfold set_start_future; destruct (start_fut c1); reflexivity).
+  destruct (cs (set_start_future c1)) eqn:Ecs.
+  5: { (* closed in between *)
+       pose proof (cleanup_cs (set_start_future c1)) as Hc. destruct (cleanup (set_start_future c1)) as [c3 o3]. cbn [fst] in Hc.
+       injection Es as <- <-. split; [apply WI_closed; [exact I'|exact Hc]|].
+       apply NC_clr. right. left. eexists. apply in_or_app. right. left. reflexivity. }
+  all: injection Es as <- <-; assert (Hinit : cs c = Init) by
+         (destruct (JK_start_running c I Hr) as [Q|Q]; [exact Q|congruence]);
+       destruct (PK_not_connected c P ltac:(congruence)) as [Q1 Q2];
+       (split; [|apply NC_open; unfold set_start_future; destruct (start_fut c1); cbn; discriminate]);
+       (split; [exact I'|]); (split; [|split]).
+  all: unfold TK, PK, GK, set_start_future; destruct (start_fut c1); cbn; try (intro Q; discriminate Q).
+  all: try (intros [Q|Q]; exfalso; apply Q; congruence).
+  all: unfold TK in T; rewrite Hinit in T; destruct T as [T|[T|[T|T]]]; try discriminate; [left; congruence|right; left; congruence].
+Qed.
+
+Lemma wake_start_W c c' o : WI c -> wake_start c = Some (c', o) -> Inv c' -> WI c' /\ NC c c' o.
+Proof.
+  intros W E I'. unfold wake_start in E. cbn [get_task] in E.
+  destruct (pc (t_start c)) eqn:Ep; try discriminate.
+  - (* awaiting the resolver *)
+    destruct (must_cancel (t_start c) || negb match do_connect c with EPending => true | _ => false end); [|discriminate].
+    pose proof (wv_take_cancel c TStart) as H1. destruct (take_cancel c TStart) as [c1 mc]. cbn [fst] in H1.
+    assert (Hr : running_s (pc (t_start c)) = true) by (rewrite Ep; reflexivity).
+    match type of E with match ?d with _ => _ end = _ => destruct d as [|e] end.
+    + injection E as <- <-. eapply leaf_tcp; [exact W| |exact I'|reflexivity]. rewrite <- H1. reflexivity.
+    + match type of E with context [timeout_exit ?x TStart e] => pose proof (wv_timeout_exit x TStart e) as H2; destruct (timeout_exit x TStart e) as [c2 e1] end.
+      injection E as E. eapply leaf_start_fail; [|exact I']. symmetry in E. apply surjective_pairing_eq. exact E.
+  - (* awaiting a TCP attempt *)
+    destruct (must_cancel (t_start c) || negb match do_connect c with EPending => true | _ => false end); [|discriminate].
+    pose proof (wv_take_cancel c TStart) as H1. destruct (take_cancel c TStart) as [c1 mc]. cbn [fst] in H1.
+    assert (Hr : running_s (pc (t_start c)) = true) by (rewrite Ep; reflexivity).
+    match type of E with match ?d with _ => _ end = _ => destruct d as [|e] end.
+    + injection E as E. eapply leaf_start_success; [exact W|exact Hr| |apply surjective_pairing_eq; symmetry; exact E|exact I'].
+      rewrite <- H1. reflexivity.
+    + match type of E with context [timeout_exit ?x TStart e] => pose proof (wv_timeout_exit x TStart e) as H2; destruct (timeout_exit x TStart e) as [c2 e1] end.
+      cbn [fst] in H2.
+      destruct (is_oserror e1).
+      * destruct groups as [|[|g']].
+        -- injection E as E. eapply leaf_start_fail; [|exact I']. apply surjective_pairing_eq. symmetry. exact E.
+        -- injection E as E. eapply leaf_start_fail; [|exact I']. apply surjective_pairing_eq. symmetry. exact E.
+        -- injection E as <- <-. eapply leaf_tcp; [exact W| |exact I'|reflexivity]. rewrite H2, <- H1. reflexivity.
+      * injection E as E. eapply leaf_start_fail; [|exact I']. apply surjective_pairing_eq. symmetry. exact E.
+Qed.
